@@ -71,7 +71,16 @@ LINK_STATES = {
 RSTATES += sorted(LINK_STATES)
 KNOWN_LINK_ESCAPE = "escape:symlink-below-R"     # the one key under which the tolerated-EEXIST defect is reported (known_findings.d/C06.json)
 MAIN_OP = ["main"]                               # "mainr" when the tree under test has the repaired create_node (probe_variant)
-WRAPPED = ["mkdir", "symlink", "mknod", "open", "open64", "utimensat", "fchownat", "fchmodat", "lsetxattr", "chdir"]
+WRAPPED = ["mkdir", "symlink", "mknod", "open", "open64", "utimensat", "fchownat", "fchmodat", "lsetxattr", "chdir",
+           "write", "pwrite", "pwrite64", "ftruncate", "ftruncate64", "fsync", "close"]
+# calls on the descriptor of a file being filled (ostream.c write_all / realize_sparse / file_flush / file_destroy, unix.c): not calls of
+# the model (it has the file's content appear with the open) — injected and judged by the specification alone (judge_wfaults)
+WCLASSES = ["write", "pwrite", "ftruncate", "fsync", "close"]
+WFAULT_ERRNOS = ["EIO", "ENOSPC", "EDQUOT", "EFBIG", "EINTR", "EINVAL", "EBADF", "EROFS", "EPERM", "EAGAIN"]
+# what the code is *meant* to survive: write()/ftruncate() interrupted by a signal are retried (ostream.c:44, unix.c:82), fsync() on an
+# object that cannot be synced answers EINVAL (ostream.c:132), close() after a successful fsync() carries no news (unix.c:47, result
+# dropped; EINTR retried).  With any other injected failure the exit status must not be 0.
+WTOLERATED = {("write", "EINTR"), ("ftruncate", "EINTR"), ("fsync", "EINVAL")} | {("close", e) for e in WFAULT_ERRNOS}
 FAULT_ERRNOS = ["EEXIST", "ENOTSUP", "ENOSYS", "EPERM", "EACCES", "ENOSPC", "EINTR", "EIO", "EROFS", "ENOENT", "ELOOP", "ENOMEM"]
 CLASS_OF = {"mkdir": "mkdir", "symlink": "symlink", "mknod": "mknod", "openx": "open", "opent": "open", "utimens": "utimensat",
             "chown": "fchownat", "chmod": "fchmodat", "setxattr": "lsetxattr", "chdir": "chdir"}
@@ -691,15 +700,17 @@ def run_case(ctx, rd, idx, case, timeout=CASE_TIMEOUT):
                     snap[absb + b"/" + nm]["mode"] = "toggled"
         log = (base / "st.log").read_text(errors="replace") if (base / "st.log").exists() else ""
         calls = [c for c in parse_strace(log) if not c[0].startswith("open?:" + os.fsencode(flog).hex())]     # the wrappers' own log
-        fired = None
+        fired, fcounts = None, {}
         if case["fault"] is not None and flog.exists():
             for line in flog.read_text().splitlines():
                 w = line.split()
                 if w and w[0] == "fired":
                     fired = w[1:]
+                elif len(w) == 3 and w[0] == "count":
+                    fcounts[w[1]] = int(w[2])
         rec = {"idx": idx, "label": case["label"], "flags": case["flags"], "upath": case["upath"].hex(), "rstate": case["rstate"],
                "rstr": None if case["rstr"] is None else case["rstr"].hex(), "rstr_real": None if rstr is None else rstr.hex(),
-               "start": case["start"], "priv": case["priv"], "fault": case["fault"], "fired": fired,
+               "start": case["start"], "priv": case["priv"], "fault": case["fault"], "fired": fired, "fault_counts": fcounts,
                "tokens": tree.tokens(), "template": template, "xattr_table": has_xattr_table(tree), "has_links": has_links(tree),
                "jail": os.fsdecode(absb), "cwd": os.fsdecode(cwd), "root": None if root is None else os.fsdecode(root),
                "perm": perm, "fsents": fsents, "new_dirs": [os.fsdecode(p) for p in allowed_new if p not in before and p in after],
@@ -1357,6 +1368,88 @@ def fault_cases(ctx, cases, recs, models):
     return out
 
 
+def wfault_cases(ctx, cases, recs):
+    """Injected failures of write / pwrite / ftruncate / fsync / close on the descriptor of a file being filled (and of the close
+    after open(O_EXCL)).  Base cases: fault-free successful runs as root into a fresh R of images with regular files (several blocks,
+    sparse blocks and sparse tails so that lseek+ftruncate is reached).  A counting run (fault class `count`, which no wrapper
+    knows) tells how many calls of each class a run makes; then every class x a sample of (k, errno)."""
+    rng = ctx.rng
+    N = Node
+    sparse = N(b"", "d", children=[N(b"s1", "f", payload=b"\0" * 9000 + b"tail"), N(b"s2", "f", payload=b"head" + b"\0" * 12000),
+                                   N(b"s3", "f", payload=b"\0" * 8192), N(b"e", "f"), N(b"big", "f", payload=bytes(range(256)) * 64),
+                                   N(b"d", "d", children=[N(b"z", "f", payload=b"z" * 5000, perm=0o600, uid=2, mtime=9)])])
+    base = [mk_case("wfault-base:sparse files", sparse, fl, b"/", "absent") for fl in ("-", "COXT", "Z", "ZT")]
+    pool = [i for i, (c, r) in enumerate(zip(cases, recs)) if c["priv"] == "root" and c["fault"] is None and r["rc"] == 0 and not r["changed"]
+            and c["rstate"] in ("absent", "empty") and c["upath"] == b"/" and c["rstr"] == b"R" and any(t.startswith("opent:") for t, _ in r["calls"])]
+    for i in rng.sample(pool, min(len(pool), 6 if ctx.quick() else 40)):
+        c = dict(cases[i]); c["label"] = "wfault-base:" + c["label"]
+        base.append(c)
+    counting = []
+    for c in base:
+        c = dict(c); c["fault"] = ("count", 1, "EIO")
+        counting.append(c)
+    return base, counting
+
+
+def wfault_derive(ctx, base, crecs):
+    rng = ctx.rng
+    out = []
+    for c, r in zip(base, crecs):
+        if r["rc"] != 0 or not r["fault_counts"]:
+            raise Infra("counting run of %s: rc=%s counts=%s stderr=%s" % (c["label"], r["rc"], r["fault_counts"], r["stderr"][-300:]))
+        for cls in WCLASSES:
+            n = r["fault_counts"].get(cls, 0)
+            if n == 0:
+                continue
+            ks = list(range(1, n + 1))
+            if len(ks) > (4 if ctx.quick() else 12):
+                ks = sorted(rng.sample(ks, 4 if ctx.quick() else 12))
+            for k in ks:
+                for en in (["EIO", "EINTR", "EINVAL"] + rng.sample(WFAULT_ERRNOS, 1) if ctx.quick() else WFAULT_ERRNOS):
+                    d = dict(c); d["fault"] = (cls, k, en); d["label"] = c["label"].replace("wfault-base:", "wfault:"); d["base_calls"] = r["calls"]
+                    out.append(d)
+    return out
+
+
+def judge_wfaults(ctx, wcases, wrecs, stats):
+    """specification only: nothing outside R changes; no abnormal end; exit status 0 only for a failure the code is meant to survive,
+    and then everything must have been unpacked completely; the traced calls are a prefix of the fault-free run's"""
+    h = stats["hist"].setdefault("wfaults", {})
+    for c, rec in zip(wcases, wrecs):
+        cls, k, en = c["fault"]
+        key = "%s|%s|%s:%d:%s" % (vlib.sha(" ".join(rec["template"]))[:16], rec["flags"], cls, k, en)
+        if rec["fired"] is None:
+            h["not fired"] = h.get("not fired", 0) + 1
+            continue
+        tol = (cls, en) in WTOLERATED
+        outcome = "%s:%s:%s" % (cls, en if tol or en in ("EINTR", "EINVAL") else "other", "rc=%s" % rec["rc"])
+        h[outcome] = h.get(outcome, 0) + 1
+        stats["wfaults_fired"] += 1
+        stats["nontrivial"].add("wfault|" + key)
+        if rec["changed"]:
+            stats["nviol"] += 1
+            ctx.violation("escape:wfault:" + key, "rdsquashfs changed objects outside the unpack root after an injected %s failure: %s" % (cls, json.dumps(rec["changed"][:3])[:500]),
+                          replay_dict(rec, "jail snapshot differs outside R"))
+        elif isinstance(rec["rc"], str) or rec["rc"] not in (0, 1):
+            stats["nviol"] += 1
+            ctx.violation("crash:wfault:" + key, "rdsquashfs ended abnormally (rc=%s) after an injected %s failure: %s" % (rec["rc"], cls, rec["stderr"][-400:]),
+                          replay_dict(rec, "abnormal end"))
+        elif rec["rc"] == 0 and not tol:
+            stats["nviol"] += 1
+            ctx.violation("fill-error-ignored:" + key, "the %d-th %s() of the run was made to fail with %s and rdsquashfs still exited 0" % (k, cls, en),
+                          replay_dict(rec, "injected %s failure ignored" % cls))
+        elif rec["rc"] == 0 and spec_complete(rec):
+            stats["nviol"] += 1
+            ctx.violation("incomplete:wfault:" + key, "exit status 0 after a (survivable) injected %s/%s but the image was not completely unpacked: %s" % (
+                cls, en, "; ".join(spec_complete(rec))[:600]), replay_dict(rec, spec_complete(rec)))
+        elif rec["rc"] == 0 and rec["calls"] != c["base_calls"] or rec["rc"] == 1 and rec["calls"] != c["base_calls"][:len(rec["calls"])]:
+            stats["ndis"] += 1
+            ctx.violation("corr:wfault:" + key, "after an injected %s/%s the traced calls are not %s the fault-free run's" % (cls, en, "equal to" if rec["rc"] == 0 else "a prefix of"),
+                          dict(replay_dict(rec, "calls differ"), fault_free_calls=c["base_calls"][:60]), found_input=False)
+        else:
+            stats["wfaults_ok"] += 1
+
+
 def build_rd(ctx):
     # fill_files.c calls qsort(NULL, 0, …) when the image has no regular file: UBSan's nonnull-attribute check
     # reports that (harmless in glibc, not a C06 matter; noted in docs/design/C06.md), so that one check is off.
@@ -1578,7 +1671,7 @@ def run(ctx):
     models, plans = model_pass(ctx, cases, recs)
     stats = {"hist": {"rc": {}, "model_status": {}, "impl_calls": 0, "skips_reported": 0, "rstate": {}, "priv": {}, "root": {}, "faults": {},
                       "nobody_refusals": {}},
-             "nontrivial": set(), "ndis": 0, "nviol": 0, "link_escapes": 0, "nmon": 0, "compared": 0, "complete_checked": 0, "monitored": 0, "monitored_calls": 0, "monitor_skipped": {}}
+             "nontrivial": set(), "ndis": 0, "nviol": 0, "link_escapes": 0, "wfaults_fired": 0, "wfaults_ok": 0, "nmon": 0, "compared": 0, "complete_checked": 0, "monitored": 0, "monitored_calls": 0, "monitor_skipped": {}}
     judge(ctx, recs, models, plans, stats)
     # fault injection: derived from the fault-free runs
     fcases = fault_cases(ctx, cases, recs, models)
@@ -1589,6 +1682,20 @@ def run(ctx):
     if fcases and nfired * 2 < len(fcases):
         raise Infra("only %d of %d injected faults fired: the wrappers are not in effect" % (nfired, len(fcases)))
     judge(ctx, frecs, fmodels, fplans, stats)
+    # failures of write / ftruncate / fsync / close while a file is being filled
+    wbase, wcount = wfault_cases(ctx, cases, recs)
+    wcrecs = run_all(ctx, rd, wcount, first_idx=len(cases) + len(fcases))
+    wcases = wfault_derive(ctx, wbase, wcrecs)
+    ctx.log("fill-phase fault runs (write/ftruncate/fsync/close): %d from %d base cases" % (len(wcases), len(wbase)))
+    wrecs = run_all(ctx, rd, wcases, first_idx=len(cases) + len(fcases) + len(wcount))
+    judge_wfaults(ctx, wcases, wrecs, stats)
+    # (ftruncate and pwrite are wrapped but an unpack run never reaches them: sqfs_istream_splice hands the output stream real
+    # buffers also for sparse blocks, so realize_sparse's lseek+ftruncate is dead for `rdsquashfs -u`, with or without -Z)
+    wcalled = sorted(c for c in WCLASSES if any(r["fault_counts"].get(c, 0) for r in wcrecs))
+    stats["wclasses_called"] = wcalled
+    if stats["wfaults_fired"] * 2 < len(wcases) or not {"write", "fsync", "close"} <= set(wcalled) or \
+            not all(any(k.startswith(c + ":") for k in stats["hist"]["wfaults"]) for c in wcalled):
+        raise Infra("fill-phase faults: %d of %d fired, classes seen %s" % (stats["wfaults_fired"], len(wcases), sorted(stats["hist"]["wfaults"])))
     if not stats["compared"] or not stats["monitored"] or not stats["monitored_calls"] or not stats["complete_checked"]:
         raise Infra("nothing was compared (%d) or monitored (%d runs, %d calls)" % (stats["compared"], stats["monitored"], stats["monitored_calls"]))
     if not stats["hist"]["root"].get("chdir failed") or not stats["hist"]["root"].get("mkdir_p failed"):
@@ -1606,7 +1713,7 @@ def run(ctx):
                         "fault": r["fault"], "nodes": len(r["tokens"]), "rc": r["rc"], "calls": [c for c, _ in r["calls"]][:8],
                         "model": {k: v for k, v in allmodels[i].items() if k in ("exit", "est", "status", "chdir", "special")}})
     ctx.cov.update({
-        "evaluations": len(allrecs) + pstat["scripts"],
+        "evaluations": len(allrecs) + len(wrecs) + pstat["scripts"],
         "distinct_nontrivial": len(stats["nontrivial"]),
         "rule": "forged images (%s; all 16 subsets of -C -O -X -T, 25%% also with a subset of -D -S -F -L -E; 15%% with an unpack sub-path; 15%% of the random "
                 "trees with damaged data blocks / xattr records, 8%% with hard links) unpacked by the ASan+UBSan rdsquashfs of the working tree under strace in a jail "
@@ -1621,6 +1728,9 @@ def run(ctx):
         "posix_model_probe": pstat,
         "monitor_on_real_calls": {"runs": stats["monitored"], "calls": stats["monitored_calls"], "disagreements": stats["nmon"], "not_monitored": stats["monitor_skipped"]},
         "faults_fired": nfired,
+        "fill_phase_faults": {"classes": WCLASSES, "errnos": WFAULT_ERRNOS, "runs": len(wcases), "fired": stats["wfaults_fired"], "as_specified": stats["wfaults_ok"],
+                              "classes_an_unpack_run_calls": stats["wclasses_called"],
+                              "survivable_by_design": sorted("%s/%s" % x for x in WTOLERATED if x[0] != "close") + ["close/*"]},
         "successful_runs_checked_for_completeness": stats["complete_checked"],
         "unprivileged_runs_possible": can_nobody,
         "create_node_variant": "repaired (model unpackMainR / op mainr)" if repaired else "current (model unpackMain / op main)",
